@@ -13,12 +13,13 @@ ID = 'C07'
 GENERATORS = ['gen_icy']
 COQ_TARGETS = ['Props/C07.vo', 'Run/RunC07.vo']
 PROPS_MODULE = 'Props.C07'
-THEOREMS = ['layer_roundtrip', 'layer_roundtrip_role', 'encode_total', 'small_layers_fit', 'document_roundtrip',
-            'known_1_witness', 'visible_bit14_needed', 'font_page_u16_needed', 'default_font_page_u16_needed',
-            'preview_offset_needed', 'before_fix_refuted', 'before_fix_row_shift_refuted', 'fix_is_local',
+THEOREMS = ['layer_roundtrip', 'layer_roundtrip_role', 'known_1_witness', 'small_layers_fit', 'document_roundtrip', 'save_succeeds',
+            'visible_bit14_needed', 'font_page_u16_needed', 'default_font_page_u16_needed', 'preview_offset_needed',
+            'negative_width_needed', 'before_fix_refuted', 'before_fix_row_shift_refuted', 'after_fix_regression', 'fix_is_local',
             'mode_bytes_roundtrip']
-SWEEP_LEMMAS = ['IcyDocProofs.mode_bytes_sweep (from_byte (to_byte v) = v for every variant of the four generated mode enums)',
-                'IcyLayerProofs.consts_ok (the generated attribute / layer-flag constants are the distinct single bits the proofs use)']
+SWEEP_LEMMAS = ['IcyLayerProofs.short_word_sweep (all 16384 attribute words a visible cell may carry: how the reader classifies a | SHORT_DATA and a)',
+                'IcyDocProofs.mode_bytes_sweep (from_byte (to_byte v) = v and to_byte v < 256 for every variant of the four generated mode enums)',
+                'IcyLayerProofs.consts_ok (the generated attribute / layer-flag / chunk-size constants have the values the proofs compute with)']
 TRUSTED = ['Coq 8.16.1 kernel + vm_compute (model evaluation in stage C, the non-vacuity examples); no axioms (Print Assumptions: closed)',
            'translator/gen_icy.py + vlib/rustsrc.py: constants of the format and the to_byte/from_byte match arms of the four mode enums',
            'the hand-written bodies of Model/IcyLayer.v and Model/IcyDoc.v, tied to the code by stage C (byte-for-byte payloads, raw reloaded lines, error classes)',
